@@ -426,12 +426,21 @@ fn dist_matches(exp: &[(NumE, u64)], act: &[(String, String)]) -> bool {
     true
 }
 
-fn extra_directive() -> DirP {
-    DirP {
-        ns: EXTRA_NS.into(),
-        dims: vec![vec![EXTRA_DIM.into()]],
-        metrics: vec![(EXTRA_METRIC.into(), Some("Count".into()), Some("1".into()))],
-    }
+/// The configured extra directives: one with a metric definition and (round 14, `C02l`) one
+/// whose list of metric definitions is empty - it still has to carry a `Metrics` member.
+fn extra_directives() -> Vec<DirP> {
+    vec![
+        DirP {
+            ns: EXTRA_NS.into(),
+            dims: vec![vec![EXTRA_DIM.into()]],
+            metrics: vec![(EXTRA_METRIC.into(), Some("Count".into()), Some("1".into()))],
+        },
+        DirP {
+            ns: EXTRA_NS_EMPTY.into(),
+            dims: vec![vec![EXTRA_DIM.into()]],
+            metrics: vec![],
+        },
+    ]
 }
 
 fn record_matches(cfg: &CfgD, exp: &Expected, e: &RecordE, a: &RecordP) -> Result<(), String> {
@@ -448,18 +457,17 @@ fn record_matches(cfg: &CfgD, exp: &Expected, e: &RecordE, a: &RecordP) -> Resul
     }
     // directives: one per namespace (+ the configured extra directive)
     let mut dirs = a.directives.clone();
-    let extra = extra_directive();
-    let had_extra = if cfg.extra_directive {
-        match dirs.iter().position(|d| *d == extra) {
-            Some(p) => {
-                dirs.remove(p);
-                true
+    let mut had_extra = cfg.extra_directive;
+    if cfg.extra_directive {
+        for extra in extra_directives() {
+            match dirs.iter().position(|d| *d == extra) {
+                Some(p) => {
+                    dirs.remove(p);
+                }
+                None => had_extra = false,
             }
-            None => false,
         }
-    } else {
-        false
-    };
+    }
     if cfg.extra_directive && e.key.is_empty() && !had_extra {
         return Err("the configured extra directive is missing from the record".into());
     }
